@@ -164,6 +164,19 @@ COND_NAMES = ['ct', 'cf', 'cu', 'ft', 'ff', 'va', 'vz', 'c', 'v', 's']
 SEQ_NAMES = ['s0', 's2', 'ss', 's']
 
 
+# literal batch options (always with an explicit orphan; C11's statement
+# fixes the window for these)
+BATCH_OPTS = [
+    [['size', '1'], ['orphan', '0']], [['size', '2'], ['orphan', '0']],
+    [['size', '5'], ['orphan', '0']], [['size', '2'], ['orphan', '1']],
+    [['start', '2'], ['size', '1'], ['orphan', '0']],
+    [['start', '2'], ['size', '4'], ['orphan', '0']],
+    [['start', '1'], ['end', '9'], ['orphan', '0']],
+    [['start', '2'], ['end', '2'], ['size', '3'], ['orphan', '0']],
+    [['start', '3'], ['size', '2'], ['orphan', '0']],
+]
+
+
 def name_ref(names):
     return st.sampled_from(names).map(lambda n: dict(r='name', n=n))
 
@@ -310,7 +323,7 @@ def node_of(cfg, k, depth, scope):
         plain = st.builds(
             mk, st.sampled_from(SEQ_NAMES),
             st.sampled_from([[], [], [['prefix', 'pq']],
-                             [['no_push_item', None]]]),
+                             [['no_push_item', None]]] + BATCH_OPTS),
             body(cfg, d, scope + ('sequence-item', 'sequence-index',
                                   'sequence-number')),
             st.one_of(st.none(), body(cfg, d, scope)), e(3))
